@@ -47,12 +47,19 @@ class HM(HX, HB):
 HBfake = type('HB', (HX,), {'__module__': __name__})
 
 
+# application classes that merely share their *name* with a builtin / a
+# zExceptions class (handlers match by class name along the bases)
+KeyErrorFake = type('KeyError', (HX,), {'__module__': __name__})
+NotFoundFake = type('NotFound', (HB,), {'__module__': __name__})
+
+
 class PullBudget(BaseException):
     """A supplier was pulled beyond its budget (unbounded consumer)."""
 
 
 HARNESS_EXC = {'HA': HA, 'HB': HB, 'HC': HC, 'HX': HX, 'HM': HM,
-               'HB~': HBfake}
+               'HB~': HBfake, 'KeyError~': KeyErrorFake,
+               'NotFound~': NotFoundFake}
 
 
 def exc_class(name):
